@@ -72,6 +72,32 @@ def Pool.flushBit (p : Pool) : Bool :=
 
 def Pool.wakeBit (p : Pool) : Bool := p.resized || p.sem.wakeB
 
+def ownCancelledB (m : Nat) (ws : List Waiter) : Bool := (removeWaiterL m ws).1 == some .cancelled
+
+/-- `CancOK`: a spawner with a cancellation snapshot has not moved since and is over or doomed -/
+def Pool.cancBit (p : Pool) : Bool :=
+  p.reqs.zipIdx.all fun (r, m) =>
+    match r.cancelSnap with
+    | none => true
+    | some (c, u) => r.created == c && r.pulled == u &&
+        (r.frame == .done || r.mustCancel || (r.frame == .waitRoom && ownCancelledB m p.sem.waiters) ||
+         (r.frame == .waitMapSem && ownCancelledB m r.mapSem.waiters))
+
+/-- a snapshot, once taken, is never changed by the step `p → p'` -/
+def snapKeptBit (p p' : Pool) : Bool :=
+  p.reqs.zipIdx.all fun (r, m) =>
+    r.cancelSnap.isNone || (match p'.reqs[m]? with | some r' => r'.cancelSnap == r.cancelSnap | none => false)
+
+/-- a spawner that is filed as cancelled, has no outcome and is not inside its own handle has a snapshot — unless it
+was cancelled from inside its own handle (frame `running` then), which the ghost does not record -/
+def Pool.snapTakenBit (p p' : Pool) (fromCaller : Bool) : Bool :=
+  p'.reqs.zipIdx.all fun (r', m) =>
+    match p.reqs[m]? with
+    | some r => !(r'.inCancelled && !r.inCancelled && r.outcome.isNone && r.frame != .running && r.frame != .done &&
+                  (fromCaller || !r.sched)) ||
+                r'.cancelSnap.isSome
+    | none => true
+
 /-- nine bits per pool, pools separated by `.`: slot, phase, not-lost, registries, life cycle + groups, map books,
 accounting, flush, wake-up -/
 def invBits2 (w : World) : String :=
@@ -79,5 +105,17 @@ def invBits2 (w : World) : String :=
     let b (x : Bool) := if x then "1" else "0"
     b (p.slotBit ((w.cfgs[i]?.map (·.size0)).getD .inf)) ++ b p.phaseBit ++ b (!p.lost) ++ b p.regBit ++
     b (p.lifeBit && p.groupsBit) ++ b p.mapBit ++ b p.accBit ++ b p.flushBit ++ b p.wakeBit)
+
+/-- twelve bits per pool: the nine of `invBits2` on the state after the step, then: cancelled spawners stopped
+(`CancOK`), no snapshot changed by this step, every spawner this step filed as cancelled (from outside its own handle)
+has a snapshot (`fromCaller`: the step was a call from outside the loop, so no spawner was inside its own handle; otherwise
+a spawner that was due to run is not examined) -/
+def invBits3 (w w' : World) (fromCaller : Bool) : String :=
+  "v2:" ++ ".".intercalate (w'.pools.zipIdx.map fun (p', i) =>
+    let b (x : Bool) := if x then "1" else "0"
+    let p := w.pools[i]?.getD p'
+    b (p'.slotBit ((w'.cfgs[i]?.map (·.size0)).getD .inf)) ++ b p'.phaseBit ++ b (!p'.lost) ++ b p'.regBit ++
+    b (p'.lifeBit && p'.groupsBit) ++ b p'.mapBit ++ b p'.accBit ++ b p'.flushBit ++ b p'.wakeBit ++
+    b p'.cancBit ++ b (snapKeptBit p p') ++ b (p.snapTakenBit p' fromCaller))
 
 end Taskpool
